@@ -1,5 +1,6 @@
 import EinxModel.Driver.Solve
 import EinxModel.Solve.Shorthand
+import EinxModel.Solve.Names
 open Lean Einx.Driver Einx.Solve
 
 /-! Request kind `shorthand` (C07, stage-2/3 shorthands).
@@ -16,6 +17,9 @@ open Lean Einx.Driver Einx.Solve
   array repeated `d` times (`Constraint.broadcast`), the ellipsis stack of the first occurrence, `solveAll`
   of both.
 * `op = "rename"`: `from`, `to`.  Answer: `renameInput (swapName from to)`, `solveAll` of both.
+
+Every answer carries `plain`: the syntactic condition `plainNames` of `Solve/Names.lean` on the request's
+trees (for `rename` also `plainName to`), from which `Props/C07Names.lean` derives `names_ok_*`, `fresh`, `ren_ok`.
 -/
 namespace Einx.Driver.Shorthand
 open Einx.Driver.Solve
@@ -58,6 +62,7 @@ def handle (j : Json) : R Json := do
       let ρ := toFun c
       let long := unrollInput inp ρ
       pure (Json.mkObj [("ok", Json.bool true), ("counts", jAssign c), ("long", inputJson long),
+        ("plain", Json.bool (plainNames inp)),
         ("rank_ok", Json.bool (checkSat (rankSystem true inp) c)),
         ("wf", Json.bool (wfConstraints inp)),
         ("names_ok_short", Json.bool (namesOK inp ρ)),
@@ -74,6 +79,7 @@ def handle (j : Json) : R Json := do
     let ρ := toFun (c.getD [])
     pure (Json.mkObj [("ok", Json.bool true), ("short", inputJson short), ("long", inputJson long),
       ("counts_known", Json.bool c.isSome),
+      ("plain", Json.bool (plainNames inp)),
       ("value_pos", Json.bool (decide (1 ≤ v))),
       ("no_other_constraint", Json.bool (inp.constraints.all (fun c => c.name != n))),
       ("same_stack", Json.bool (sameStack inp n)),
@@ -91,6 +97,7 @@ def handle (j : Json) : R Json := do
       let st := inp.occs.lookup c.name
       let level : Option Var := st.bind (fun st => if c.shape.length < st.length then st[st.length - c.shape.length - 1]? else none)
       pure (Json.mkObj [("ok", Json.bool true), ("long", inputJson long),
+        ("plain", Json.bool (plainNames inp)),
         ("wf", Json.bool (c.vals.length == c.shape.foldr (· * ·) 1)),
         ("stack", match st with | none => Json.null | some s => jStrs s),
         ("level", match level with | none => Json.null | some s => Json.str s),
@@ -103,6 +110,7 @@ def handle (j : Json) : R Json := do
     let ρ := toFun (c.getD [])
     pure (Json.mkObj [("ok", Json.bool true), ("long", inputJson long),
       ("counts_known", Json.bool c.isSome),
+      ("plain", Json.bool (plainNames inp && plainName b)),
       ("target_unused", Json.bool (!inp.names.contains b)),
       ("ren_ok", Json.bool (renOK (swapName a b) inp ρ)),
       ("names_ok_short", Json.bool (namesOK inp ρ)),
